@@ -236,6 +236,30 @@ fn id_num(id: DatumId) -> usize {
 
 /// Emits the glue module text for one definition. `module` is the module name, `gen_file` the file
 /// name (inside OUT_DIR) holding the generated code.
+/// Field names of `pub struct <name>` as the generated code declares it (`Some(vec![])` for a
+/// unit struct, `None` when the struct is not found).
+fn struct_fields(code: &str, name: &str) -> Option<Vec<String>> {
+    for head in [format!("pub struct {} {{", name), format!("pub struct {}<", name)] {
+        if let Some(start) = code.find(&head) {
+            let body_start = start + code[start..].find('{')? + 1;
+            let body_end = body_start + code[body_start..].find('}')?;
+            let mut out = vec![];
+            for line in code[body_start..body_end].lines() {
+                if let Some(rest) = line.trim().strip_prefix("pub ") {
+                    if let Some((n, _)) = rest.split_once(':') {
+                        out.push(n.trim().to_owned());
+                    }
+                }
+            }
+            return Some(out);
+        }
+    }
+    if code.contains(&format!("pub struct {};", name)) {
+        return Some(vec![]);
+    }
+    None
+}
+
 /// Names of the data fields of `Record<n>AndUnpackedOut` as the generated code declares them.
 fn out_struct_fields(code: &str, n: usize) -> Option<Vec<String>> {
     let head = format!("pub struct Record{}AndUnpackedOut<", n);
@@ -333,10 +357,15 @@ pub fn emit_glue(spec: &DefSpec, built: &Built, module: &str, gen_file: &str, co
     writeln!(w, "    pub fn max_size() -> usize {{ MAX_SIZE }}").unwrap();
 
     // helpers to write struct literals
-    let lit_full = |fields: &[usize], vals: &str, base: &[usize]| -> String {
+    // The literals only name the fields the emitted struct really has (a struct that lacks a field
+    // it should have is found out at run time: the value is then never stored, and the model says
+    // it is), so that a deviating interface is a verdict of the run and not a build failure.
+    let lit_full = |strukt: &str, fields: &[usize], vals: &str, base: &[usize]| -> String {
+        let emitted = struct_fields(code, strukt);
         // value index = position of the datum in `base`
         fields
             .iter()
+            .filter(|d| emitted.as_ref().map_or(true, |e| e.contains(&fname(**d))))
             .map(|d| format!("{}: <{} as Field>::make({}[{}])", fname(*d), tyname(*d), vals, base.iter().position(|x| x == d).unwrap()))
             .collect::<Vec<_>>()
             .join(", ")
@@ -369,10 +398,10 @@ pub fn emit_glue(spec: &DefSpec, built: &Built, module: &str, gen_file: &str, co
     for (k, v) in variants.iter().enumerate() {
         let mandatory: Vec<usize> = v.data.iter().copied().filter(|d| !uninit(*d)).collect();
         writeln!(w, "                {} => Rec::V{}(Place::build(place, || match ctor {{", k, k).unwrap();
-        writeln!(w, "                    Ctor::New => CappedRecord{}::<CAP>::new(UnpackedRecord{} {{ {} }}),", k, k, lit_full(&v.data, "vals", &v.data)).unwrap();
-        writeln!(w, "                    Ctor::NewUninit => CappedRecord{}::<CAP>::new_uninit(UnpackedUninitRecord{} {{ {} }}),", k, k, lit_full(&mandatory, "vals", &v.data)).unwrap();
-        writeln!(w, "                    Ctor::FromFull => <CappedRecord{}<CAP> as From<UnpackedRecord{}>>::from(UnpackedRecord{} {{ {} }}),", k, k, k, lit_full(&v.data, "vals", &v.data)).unwrap();
-        writeln!(w, "                    Ctor::FromUninit => <CappedRecord{}<CAP> as From<UnpackedUninitRecord{}>>::from(UnpackedUninitRecord{} {{ {} }}),", k, k, k, lit_full(&mandatory, "vals", &v.data)).unwrap();
+        writeln!(w, "                    Ctor::New => CappedRecord{}::<CAP>::new(UnpackedRecord{} {{ {} }}),", k, k, lit_full(&format!("UnpackedRecord{}", k), &v.data, "vals", &v.data)).unwrap();
+        writeln!(w, "                    Ctor::NewUninit => CappedRecord{}::<CAP>::new_uninit(UnpackedUninitRecord{} {{ {} }}),", k, k, lit_full(&format!("UnpackedUninitRecord{}", k), &mandatory, "vals", &v.data)).unwrap();
+        writeln!(w, "                    Ctor::FromFull => <CappedRecord{}<CAP> as From<UnpackedRecord{}>>::from(UnpackedRecord{} {{ {} }}),", k, k, k, lit_full(&format!("UnpackedRecord{}", k), &v.data, "vals", &v.data)).unwrap();
+        writeln!(w, "                    Ctor::FromUninit => <CappedRecord{}<CAP> as From<UnpackedUninitRecord{}>>::from(UnpackedUninitRecord{} {{ {} }}),", k, k, k, lit_full(&format!("UnpackedUninitRecord{}", k), &mandatory, "vals", &v.data)).unwrap();
         writeln!(w, "                }})),").unwrap();
     }
     writeln!(w, "                _ => panic!(\"glue: no such variant\"),\n            }};\n            self.slots[slot] = Some(rec);\n        }}").unwrap();
@@ -427,10 +456,10 @@ pub fn emit_glue(spec: &DefSpec, built: &Built, module: &str, gen_file: &str, co
         let out_fields: String = handed_back.iter().map(|(_, name)| format!(", {}", name)).collect();
         let out_push: String = handed_back.iter().map(|(d, name)| format!("out_push({}, {}.tok(), {}.id()); ", d, name, name)).collect();
         writeln!(w, "                Rec::V{}(p) => Rec::V{}(p.convert(|from: CappedRecord{}<CAP>| -> CappedRecord{}<CAP> {{ match form {{", k, n, k, n).unwrap();
-        writeln!(w, "                    Form::Full => CappedRecord{}::<CAP>::from((from, UnpackedRecordIn{} {{ {} }})),", n, n, lit_full(&nxt.plus, "plus", &nxt.plus)).unwrap();
-        writeln!(w, "                    Form::Uninit => CappedRecord{}::<CAP>::from((from, UnpackedUninitRecordIn{} {{ {} }})),", n, n, lit_full(&mandatory_plus, "plus", &nxt.plus)).unwrap();
-        writeln!(w, "                    Form::FullOut => {{ let Record{}AndUnpackedOut {{ record{} }} = Record{}AndUnpackedOut::<CAP>::from((from, UnpackedRecordIn{} {{ {} }})); {} record }}", n, out_fields, n, n, lit_full(&nxt.plus, "plus", &nxt.plus), out_push).unwrap();
-        writeln!(w, "                    Form::UninitOut => {{ let Record{}AndUnpackedOut {{ record{} }} = Record{}AndUnpackedOut::<CAP>::from((from, UnpackedUninitRecordIn{} {{ {} }})); {} record }}", n, out_fields, n, n, lit_full(&mandatory_plus, "plus", &nxt.plus), out_push).unwrap();
+        writeln!(w, "                    Form::Full => CappedRecord{}::<CAP>::from((from, UnpackedRecordIn{} {{ {} }})),", n, n, lit_full(&format!("UnpackedRecordIn{}", n), &nxt.plus, "plus", &nxt.plus)).unwrap();
+        writeln!(w, "                    Form::Uninit => CappedRecord{}::<CAP>::from((from, UnpackedUninitRecordIn{} {{ {} }})),", n, n, lit_full(&format!("UnpackedUninitRecordIn{}", n), &mandatory_plus, "plus", &nxt.plus)).unwrap();
+        writeln!(w, "                    Form::FullOut => {{ let Record{}AndUnpackedOut {{ record{} }} = Record{}AndUnpackedOut::<CAP>::from((from, UnpackedRecordIn{} {{ {} }})); {} record }}", n, out_fields, n, n, lit_full(&format!("UnpackedRecordIn{}", n), &nxt.plus, "plus", &nxt.plus), out_push).unwrap();
+        writeln!(w, "                    Form::UninitOut => {{ let Record{}AndUnpackedOut {{ record{} }} = Record{}AndUnpackedOut::<CAP>::from((from, UnpackedUninitRecordIn{} {{ {} }})); {} record }}", n, out_fields, n, n, lit_full(&format!("UnpackedUninitRecordIn{}", n), &mandatory_plus, "plus", &nxt.plus), out_push).unwrap();
         writeln!(w, "                }} }})),").unwrap();
     }
     writeln!(w, "                _ => unreachable!(),\n            }};\n            self.slots[slot] = Some(new);\n            out_take()\n        }}").unwrap();
